@@ -67,26 +67,36 @@ def check(repo: Repo, rep: Report) -> None:
                f"{name}: the pending element is not flushed (under the presence flag) before completion")
     # throttle_first
     tf = repo.fn(TF, "throttle_first_.subscribe.on_next")
-    dec = [s for s in sites(tf) if isinstance(s.node, ast.Assign) and u(s.node.targets[0]) == "emit" and u(s.node.value) == "True"]
+    root_tf = repo.fn(TF, "throttle_first_.subscribe")
+    ems = [s for g, s, k in TC.downstream_sites(root_tf, ("on_next",)) if g is tf]
+    flag = None
+    for s in ems:
+        for e, p_ in s.ctx.guards:
+            if p_ and isinstance(e, ast.Name):
+                flag = e.id
+    dec = [s for s in sites(tf) if flag and isinstance(s.node, ast.Assign) and u(s.node.targets[0]) == flag and u(s.node.value) == "True"]
     ok = False
+    last_var = None
     if dec:
-        st = dec[0]
         par = tf.module.parents
-        n_ = st.node
+        n_ = dec[0].node
         while n_ is not None and not isinstance(n_, ast.If):
             n_ = par.get(n_)
         if isinstance(n_, ast.If):
             parts = n_.test.values if isinstance(n_.test, ast.BoolOp) and isinstance(n_.test.op, ast.Or) else [n_.test]
-            incl = False
-            first = False
+            incl = first = False
             for p_ in parts:
-                r = compare_norm(p_, lambda x: "last_on_next" in u(x) and "now" in u(x))
-                if r and r[0] == ">=" and u(r[1]) == "duration":
-                    incl = True
-                if u(p_) in ("not last_on_next", "last_on_next is None"):
+                r = compare_norm(p_, lambda x: isinstance(x, ast.BinOp) and isinstance(x.op, ast.Sub))
+                if r and r[0] == ">=" and isinstance(r[1], ast.Name):
+                    sub_ = p_.left if isinstance(p_.left, ast.BinOp) else p_.comparators[0]
+                    if isinstance(sub_.right, ast.Name):
+                        last_var = sub_.right.id
+                        incl = True
+            for p_ in parts:
+                if last_var and u(p_) in (f"not {last_var}", f"{last_var} is None"):
                     first = True
             ok = incl and first
-    rec = [s for s in sites(tf) if isinstance(s.node, ast.Assign) and u(s.node.targets[0]) == "last_on_next" and u(s.node.value) == "now"]
+    rec = [s for s in sites(tf) if last_var and isinstance(s.node, ast.Assign) and u(s.node.targets[0]) == last_var and isinstance(s.node.value, ast.Name)]
     rep.ob("R3-throttle-first", tf, "emit iff first or now - last >= duration", ok,
            "throttle_first does not emit exactly when at least the window duration has passed since the last emitted element")
     rep.ob("R3-throttle-first", tf, "last emission time recorded in the deciding branch", bool(rec) and bool(dec) and rec[0].ctx.branch == dec[0].ctx.branch,
